@@ -505,9 +505,12 @@ class ASTPrinter:
         if desc is None or not self.include_descriptions:
             return formatted
 
-        if parse_block_string(desc.value) != desc.value or "\r" in desc.value:
+        if parse_block_string(desc.value) != desc.value or any(
+            c < " " and c not in "\t\n" for c in desc.value
+        ):
             # Not all strings can be written as a block string (leading or
-            # trailing blank lines, carriage returns, ...).
+            # trailing blank lines, carriage returns and other control
+            # characters which are only legal as escapes, ...).
             desc_str = json.dumps(desc.value, ensure_ascii=False)
         else:
             desc_str = _block_string(desc.value, self.indent, True)
